@@ -115,6 +115,20 @@ func main() {
 		}
 		methods := []string{"GET", "POST", "FOO", "BAR"}
 		steps := rnd.Range(5, 40)
+		if hi%8 == 3 {
+			// fan-out pool: 55-75 siblings under one node, so insert/delete cross the 50-children
+			// switch between linear and binary edge search (getEdge / updateEdge)
+			alpha := "0123456789ABCDEFGHIJKLMNOPQRSTUVWXYZabcdefghijklmnopqrstuvwxyz-_.~!$&'()+,;=:@"
+			pre := hx.Pick(rnd, []string{"/", "/p/", "/{x}/", "/p"})
+			nch := rnd.Range(55, 75)
+			pool = pool[:0]
+			for i := 0; i < nch; i++ {
+				pool = append(pool, pre+string(alpha[(i*7+hi)%len(alpha)])+hx.Pick(rnd, []string{"", "/a", "b"}))
+			}
+			methods = []string{"GET"}
+			steps = rnd.Range(90, 140)
+			st.Count("pool:fanout")
+		}
 		var ops []string
 		var human []string
 		okWrites, fails := 0, 0
